@@ -165,6 +165,10 @@ type Sys struct {
 	MakeRunner func(j *prunner.PipelineJob) taskctl.Runner
 	callSeq    int64
 	started    map[string]bool // jobs started by this runner instance (jobs loaded from a store never were)
+
+	// seams for the harness's own tests
+	testAfterSnapshot func()
+	testIterBlock     func(job string, count int64)
 }
 
 // WasStarted reports whether the job was started by this runner instance
@@ -317,7 +321,11 @@ func (s *Sys) onIteration(job string, st map[string]int32) {
 		it.release = make(chan struct{})
 		ch = it.release
 	}
+	blk, cnt := s.testIterBlock, it.count
 	s.mu.Unlock()
+	if blk != nil {
+		blk(job, cnt)
+	}
 	if ch != nil {
 		<-ch
 	}
